@@ -5,6 +5,21 @@ use vcore::*;
 use crate::{all_bits, final_view, Mons};
 
 pub fn case(cs: u64, unsafe_finalize: bool, args: &Args, mons: &mut Mons, case: &Value) {
+    if args.get("storage") == Some("file") {
+        // the same workload on the libc FileManager (one tmpfs directory per replica)
+        let dirs = std::cell::RefCell::new(vec![]);
+        case_on(cs, unsafe_finalize, args, mons, case, &|init: &Id| {
+            let d = Scratch::new("rt-hist");
+            let r = FileReplica::new_file(d.path(), init);
+            dirs.borrow_mut().push(d);
+            r
+        });
+    } else {
+        case_on(cs, unsafe_finalize, args, mons, case, &|init: &Id| MemReplica::new_mem(init));
+    }
+}
+
+fn case_on<M: aranya_runtime::linear::IoManager>(cs: u64, unsafe_finalize: bool, args: &Args, mons: &mut Mons, case: &Value, mk: &dyn Fn(&Id) -> Replica<M>) {
     let mut rng = Rng::new(cs);
     let mut cfg = GenCfg::small(&mut rng);
     if unsafe_finalize {
@@ -43,7 +58,7 @@ pub fn case(cs: u64, unsafe_finalize: bool, args: &Args, mons: &mut Mons, case: 
         let hcfg = HistCfg::random(&mut rng);
         let steps = history(&model, &|_| true, &hcfg, &mut rng);
         hist_hashes.push(hash_of(&format!("{steps:?}")));
-        let mut rep = MemReplica::new_mem(&init);
+        let mut rep = mk(&init);
         let mut o = Obs::default();
         let none = Bits::new(model.len());
         let out = run_history(&mut rep, &mut model, &steps, &none, &RunCfg::default(), &mut o);
